@@ -144,6 +144,26 @@ impl<T: RealNumber, M: Matrix<T>> Predictor<M, M::RowVector> for KMeans<T> {
     }
 }
 
+/// Verification hook (cfg `smartcore_verif` only): what one call of the k-means++ seeding drew.
+#[cfg(smartcore_verif)]
+#[derive(Debug, Clone, Default)]
+pub struct VerifKMeansSeeding {
+    /// the first centroid (a training row)
+    pub first: Vec<f64>,
+    /// the cut-off `r * sum` of every later round
+    pub cutoffs: Vec<f64>,
+    /// the row chosen in every later round
+    pub chosen: Vec<usize>,
+    /// the initial assignment returned by the seeding
+    pub y: Vec<usize>,
+}
+
+#[cfg(smartcore_verif)]
+thread_local! {
+    /// Verification hook: seeding records of this thread, oldest first.
+    pub static VERIF_KMEANS_SEEDING: std::cell::RefCell<Vec<VerifKMeansSeeding>> = std::cell::RefCell::new(Vec::new());
+}
+
 impl<T: RealNumber + Sum> KMeans<T> {
     /// Fit algorithm to _NxM_ matrix where _N_ is number of samples and _M_ is number of features.
     /// * `data` - training instances to cluster    
@@ -246,6 +266,11 @@ impl<T: RealNumber + Sum> KMeans<T> {
         let (n, m) = data.shape();
         let mut y = vec![0; n];
         let mut centroid = data.get_row_as_vec(rng.gen_range(0..n));
+        #[cfg(smartcore_verif)]
+        let mut verif_rec = VerifKMeansSeeding {
+            first: centroid.iter().map(|v| v.to_f64().unwrap()).collect(),
+            ..Default::default()
+        };
 
         let mut d = vec![T::max_value(); n];
 
@@ -277,6 +302,11 @@ impl<T: RealNumber + Sum> KMeans<T> {
                 index += 1;
             }
 
+            #[cfg(smartcore_verif)]
+            {
+                verif_rec.cutoffs.push(cutoff.to_f64().unwrap());
+                verif_rec.chosen.push(index);
+            }
             data.copy_row_as_vec(index, &mut centroid);
         }
 
@@ -288,6 +318,12 @@ impl<T: RealNumber + Sum> KMeans<T> {
                 d[i] = dist;
                 y[i] = k - 1;
             }
+        }
+
+        #[cfg(smartcore_verif)]
+        {
+            verif_rec.y = y.clone();
+            VERIF_KMEANS_SEEDING.with(|r| r.borrow_mut().push(verif_rec));
         }
 
         y
